@@ -391,7 +391,12 @@ def d6_model_parameters(ctx):
         good = False
         if len(flat) == 1:
             lits = literals(Normalizer(f.node, inline=False).conj(astx.path_condition(f.node, flat[0], pm)))
-            good = lits == {"truthy(isinstance(self.pref_intervals_by_bloc.values()[0], PreferenceInterval))"}
+            ISFLAT = "truthy(isinstance(self.pref_intervals_by_bloc.values()[0], PreferenceInterval))"
+            good = lits == {ISFLAT}
+            # the same as a default that only the nested case overrides:  X = flat; if not isinstance(...): X = combined
+            if not good and not lits and len(comb) == 1 and flat[0].lineno < comb[0].lineno:
+                lc = literals(Normalizer(f.node, inline=False).conj(astx.path_condition(f.node, comb[0], pm)))
+                good = lc == {"not " + ISFLAT}
         ctx.check(good, f, flat[0] if flat else f.node, f"{cname}: already-combined intervals are used unchanged", "", "the flat-interval branch changed")
     # the exact sampler's tables: one per bloc, from that bloc's own combined interval (shared with C15.R3)
     from rules import c15
